@@ -47,4 +47,5 @@ EXTRAS = [
     lambda rep, fb, tier: __import__("vf.rules.pyrules", fromlist=["x"]).rule_py_merge_batch(rep),
     lambda rep, fb, tier: __import__("vf.rules.pyrules3", fromlist=["x"]).rule_py_unused_local(rep),
     lambda rep, fb, tier: __import__("vf.rules.pyrules4", fromlist=["x"]).rule_py_recursion_all_options(rep),
+    lambda rep, fb, tier: __import__("vf.rules.lints3", fromlist=["x"]).rule_mergeable_unwraps(rep, fb),
 ]
